@@ -53,14 +53,30 @@ def _fold(block, known):
         elif rv["r"] == "un" and rv.get("op") == "Not":
             src = _local_of(rv["o"])
             v = env.get(src) if src is not None else _const_bool(rv["o"])
-            val = None if v is None else 1 - v
+            val = None if not isinstance(v, int) else 1 - v
+        elif rv["r"] == "discr" and not rv["pl"]["p"]:
+            v = env.get(rv["pl"]["l"])
+            if isinstance(v, tuple) and rv.get("vars"):
+                for d, name in rv["vars"]:
+                    if name == v[1]: val = int(d)
         if val is None: env.pop(l["l"], None)
         else: env[l["l"]] = val
     t = block["tm"]
     src = _local_of(t["o"])
-    return env.get(src) if src is not None else None
+    v = env.get(src) if src is not None else None
+    return v if isinstance(v, int) else None
 
-def thread_jumps(mir, bool_locals, max_rounds=4):
+def _simple(b, allow_discr=True):
+    """only storage markers and plain copies / negations / discriminant reads: safe to duplicate"""
+    if b.get("cl") or b.get("ghost") or len(b["st"]) > 8: return False
+    for st in b["st"]:
+        if st.get("s") in ("dead", "live", "nop"): continue
+        if st.get("s") != "=": return False
+        if st["rv"]["r"] not in ("use", "un", "discr"): return False
+        if st["rv"]["r"] == "use" and "c" not in st["rv"]["o"] and "m" not in st["rv"]["o"] and _const_bool(st["rv"]["o"]) is None: return False
+    return True
+
+def thread_jumps(mir, bool_locals, enum_locals=frozenset(), max_rounds=4):
     """mutates mir (a deep copy owned by the caller); returns number of threaded edges"""
     blocks = mir["blocks"]
     n = 0
@@ -81,50 +97,72 @@ def thread_jumps(mir, bool_locals, max_rounds=4):
                 f = final(s)
                 if f != s:
                     _redirect(b["tm"], s, f); changed = True
-        # 2. thread constant boolean assignments into the switch that tests them
+        # 2. thread constant boolean / known-variant assignments into the switch that tests them. Between the assignment and the
+        #    switch there may be up to two blocks that only copy (the `dest = _0` of an inlined helper's return).
+        preds = {}
+        for i, b in enumerate(blocks):
+            if b.get("cl") or b.get("ghost"): continue
+            if b["tm"]["t"] == "goto": preds.setdefault(b["tm"]["ok"], []).append(i)
         for bi, B in enumerate(list(blocks)):
-            if B.get("cl") or B.get("ghost") or B["tm"]["t"] != "sw" or B["tm"].get("dty") != "bool": continue
-            if len(B["st"]) > 6 or any(st.get("s") not in ("=", "dead") or (st.get("s") == "=" and st["rv"]["r"] not in ("use", "un")) for st in B["st"]): continue
-            for xi, X in enumerate(list(blocks)):
-                if xi == bi or X.get("cl") or X.get("ghost") or X["tm"]["t"] != "goto" or X["tm"]["ok"] != bi: continue
-                known = {}
-                for st in X["st"]:
-                    if st.get("s") == "=" and not st["l"]["p"]:
-                        c = _const_bool(st["rv"]["o"]) if st["rv"]["r"] == "use" else None
-                        if c is not None and st["l"]["l"] in bool_locals: known[st["l"]["l"]] = c
-                        else: known.pop(st["l"]["l"], None)
-                if not known: continue
-                v = _fold(B, known)
-                if v is None: continue
-                t = B["tm"]
-                target = None
-                for val, tb in t["tg"]:
-                    if int(val) == v: target = tb
-                if target is None: target = t["else"]
-                nb = {"cl": False, "st": copy.deepcopy(B["st"]), "tm": {"t": "goto", "ok": target, "ln": t.get("ln"), "x": False, "threaded": bi}}
-                if "file" in B: nb["file"] = B["file"]
-                if "_stk" in B: nb["_stk"] = B["_stk"]
-                blocks.append(nb)
-                X["tm"]["ok"] = len(blocks) - 1
-                n += 1; changed = True
+            if B["tm"]["t"] != "sw" or not _simple(B): continue
+            chains = [[bi]]
+            for m1 in preds.get(bi, []):
+                if m1 != bi and _simple(blocks[m1]) and not blocks[m1]["tm"].get("threaded"):
+                    chains.append([m1, bi])
+                    for m2 in preds.get(m1, []):
+                        if m2 not in (m1, bi) and _simple(blocks[m2]) and not blocks[m2]["tm"].get("threaded"): chains.append([m2, m1, bi])
+            for chain in chains:
+                head = chain[0]
+                sts = [st for c in chain for st in blocks[c]["st"]]
+                if len(sts) > 12: continue
+                pseudo = {"st": sts, "tm": B["tm"]}
+                for xi in list(preds.get(head, [])):
+                    X = blocks[xi]
+                    if xi in chain or X["tm"]["t"] != "goto" or X["tm"]["ok"] != head: continue
+                    known = {}
+                    for st in X["st"]:
+                        if st.get("s") == "=" and not st["l"]["p"]:
+                            l = st["l"]["l"]; rv = st["rv"]
+                            c = _const_bool(rv["o"]) if rv["r"] == "use" else None
+                            if c is not None and l in bool_locals: known[l] = c
+                            elif rv["r"] == "agg" and rv.get("ak") == "adt" and rv.get("var") is not None and l in enum_locals: known[l] = ("var", rv["var"])
+                            else: known.pop(l, None)
+                    if not known: continue
+                    v = _fold(pseudo, known)
+                    if v is None: continue
+                    t = B["tm"]
+                    target = None
+                    for val, tb in t["tg"]:
+                        if int(val) == v: target = tb
+                    if target is None: target = t["else"]
+                    nb = {"cl": False, "st": copy.deepcopy(sts), "tm": {"t": "goto", "ok": target, "ln": t.get("ln"), "x": False, "threaded": bi}}
+                    for key in ("file", "_stk"):
+                        if key in blocks[head]: nb[key] = blocks[head][key]
+                    blocks.append(nb)
+                    X["tm"]["ok"] = len(blocks) - 1
+                    preds[head].remove(xi)
+                    n += 1; changed = True
         if not changed: break
     return n
 
 def normalise_fn(f, Fn):
     """-> new Fn (or f itself when nothing changes)"""
     bl = set(i for i, t in enumerate(f.locals) if t == "bool")
-    if not bl: return f, 0
-    # cheap pre-filter: some bool local is assigned a constant
+    # locals that get a variant of an enum in more than one place (a match that builds an Option / Result / private enum)
+    cnt = {}
     hit = False
     for b in f.blocks:
         if b.get("cl") or b.get("ghost"): continue
         for st in b["st"]:
-            if st.get("s") == "=" and not st["l"]["p"] and st["l"]["l"] in bl and st["rv"]["r"] == "use" and _const_bool(st["rv"]["o"]) is not None:
-                hit = True; break
-        if hit: break
-    if not hit: return f, 0
+            if st.get("s") != "=" or st["l"]["p"]: continue
+            rv = st["rv"]
+            if st["l"]["l"] in bl and rv["r"] == "use" and _const_bool(rv["o"]) is not None: hit = True
+            if rv["r"] == "agg" and rv.get("ak") == "adt" and rv.get("var") is not None and b["tm"]["t"] == "goto":
+                cnt.setdefault(st["l"]["l"], set()).add(rv["var"])
+    el = set(l for l, vs in cnt.items() if len(vs) > 1)
+    if not hit and not el: return f, 0
     mir = copy.deepcopy(f.raw["mir"])
-    n = thread_jumps(mir, bl)
+    n = thread_jumps(mir, bl, el)
     if not n: return f, 0
     raw = dict(f.raw); raw["mir"] = mir
     nf = Fn(raw, f.prog); nf.id = f.id
